@@ -474,3 +474,117 @@ def _concrete_pc(kind, nonempty, contains, value):
     if kind == "dict":
         return {"ph": value} if contains else {"other-phase": 1.0}
     return ["ph"] if contains else ["other-phase"]
+
+
+# ============================================================================================ generation entry points
+def variants_for(K, pmux_ns):
+    if K != "PMux":
+        return [("", {})]
+    out = []
+    for n in pmux_ns:
+        out.append(("n%d,rs-scalar" % n, dict(n_inputs=n)))
+        out.append(("n%d,rs-list" % n, dict(n_inputs=n, rs_list=n)))
+    return out
+
+
+def generate(run, src, methods=("outp", "inp", "pwr"), pmux_ns=(1, 2), kinds=None):
+    """-> Gen with .obls / .canaries for the requested methods"""
+    global variants
+    variants = lambda K: variants_for(K, pmux_ns)
+    g = Gen(run, src)
+    for K in (kinds or ALL_K):
+        if "outp" in methods: g.outp_volt(K)
+        if "inp" in methods: g.inp_curr(K)
+        if "pwr" in methods: g.pwr_loss(K)
+    return g
+
+
+def cross_check(src, seed, n_inputs, methods=("_solv_outp_volt", "_solv_inp_curr", "_solv_pwr_loss"), kinds=None):
+    """CPython cross-check of the engine: random concrete inputs through the REAL method (CPython) and through the
+    engine's path summary: exactly one path condition must hold and its result term must evaluate to the real result.
+    -> (functions, inputs, mismatches list)"""
+    import random
+    rnd = random.Random(seed)
+    nf = ni = 0; mism = []
+    for K in (kinds or ALL_K):
+        for meth in methods:
+            comp = Comp(K, n_inputs=2 if K == "PMux" else 1); a = Args(comp)
+            def thunk(e, comp=comp, a=a, meth=meth):
+                obj = comp.build(e); a.assume(e)
+                if meth == "_solv_pwr_loss":
+                    return e.call_method(obj, meth, [SV(a.vi[0], "real"), SV(a.vo, "real"), SV(a.ii, "real"), SV(a.io, "real"), SV(a.ta, "real"), PHASE, a.pc])
+                mid = SV(a.ii, "real") if meth == "_solv_outp_volt" else SV(a.vo, "real")
+                return e.call_method(obj, meth, [a.vi_list(), mid, SV(a.io, "real"), PHASE, a.pc, a.pstate()])
+            try:
+                paths = Engine(src).explore(thunk)
+            except (Unsupported, FunctionMissing):
+                continue
+            nf += 1
+            for _ in range(n_inputs):
+                val = {}
+                def pick(t, lo=0.0, hi=1.0, zero=0.15):
+                    val[t] = 0.0 if rnd.random() < zero else round(rnd.uniform(lo, hi), 3)
+                for k, t in comp.P.items():
+                    if isinstance(t, list):
+                        for x in t: pick(x, -0.1, 0.1)
+                    elif isinstance(t, str): pass
+                    elif z3.is_bool(t): val[t] = rnd.random() < 0.5
+                    elif k == "vo": val[t] = rnd.choice([0.0, 1.8, 3.3, -5.0, 12.0])
+                    elif k == "vdrop" and K == "LinReg": val[t] = rnd.choice([0.0, 0.2])
+                    elif k == "rs" and K == "RLoad": val[t] = rnd.choice([10.0, 470.0])
+                    elif k == "rt" and K == "Source": val[t] = 0.0
+                    else: pick(t, 0.0, 0.2)
+                if K == "LinReg" and not (val[comp.P["vdrop"]] < abs(val[comp.P["vo"]])): val[comp.P["vo"]] = 3.3
+                for t in a.vi: val[t] = rnd.choice([0.0, 5.0, -12.0, 3.3, 0.25])
+                for t in a.off: val[t] = rnd.random() < 0.2
+                val[a.io] = rnd.choice([0.0, 0.01, 0.5, 2.0]); val[a.ii] = rnd.choice([0.0, 0.02, 0.6]); val[a.vo] = rnd.choice([0.0, 3.3, -4.9]); val[a.ta] = rnd.choice([25.0, -10.0, 0.0])
+                ne = rnd.random() < 0.6; ct = ne and rnd.random() < 0.5; pv = rnd.choice([0.01, 0.3, 100.0])
+                gconst = rnd.choice([0.0, 0.001, 0.05]) if K != "Converter" else rnd.choice([0.5, 0.9, 1.0])
+                subs = [(t, (z3.BoolVal(v) if isinstance(v, bool) else z3.RealVal(repr(float(v))))) for t, v in val.items()]
+                subs += [(a.pc.nonempty, z3.BoolVal(ne))]
+                def conc(term):
+                    t2 = z3.substitute_funs(term, (comp.G, z3.RealVal(repr(gconst))), (a.pc._contains, z3.BoolVal(ct)), (a.pc._value, z3.RealVal(repr(pv))))
+                    return z3.simplify(z3.substitute(t2, *subs))
+                # real call
+                import sysloss.components as C
+                obj = object.__new__(getattr(C, comp.cls))
+                params = {"name": "X"}
+                for k, t in comp.P.items():
+                    params[k] = [val[x] for x in t] if isinstance(t, list) else (t if isinstance(t, str) else val[t])
+                if K in ("VLoss", "Rectifier:diode"): params["vdrop"] = gconst
+                obj._params = params; obj._limits = C.LIMITS_DEFAULT
+                obj._ipr = C._Interp0d(gconst) if comp.has_ipr() else None
+                pconf = _concrete_pc(a.pc.kind, ne, ct, pv)
+                vi = [val[t] for t in a.vi]; off = [val[t] for t in a.off]
+                try:
+                    if meth == "_solv_pwr_loss":
+                        real = ("return", [float(x) for x in obj._solv_pwr_loss(vi[0], val[a.vo], val[a.ii], val[a.io], val[a.ta], "ph", pconf)])
+                    elif meth == "_solv_outp_volt":
+                        r_ = obj._solv_outp_volt(list(vi), val[a.ii], val[a.io], "ph", pconf, {"off": list(off)}); real = ("return", [float(r_[0]), float(bool(r_[1]["off"][0]))])
+                    else:
+                        real = ("return", [float(obj._solv_inp_curr(list(vi), val[a.vo], val[a.io], "ph", pconf, {"off": list(off)}))])
+                except ZeroDivisionError:
+                    continue
+                except Exception as ex:
+                    real = ("raise", type(ex).__name__)
+                ni += 1
+                hold = []
+                for p in paths:
+                    if all(z3.is_true(conc(c)) for c in p.pc): hold.append(p)
+                if len(hold) != 1:
+                    mism.append((K, meth, "paths holding: %d" % len(hold), params, vi, off)); continue
+                p = hold[0]
+                if p.kind == "raise":
+                    if real != ("raise", p.value.etype): mism.append((K, meth, "engine raises %s, CPython %r" % (p.value.etype, real), params, vi))
+                    continue
+                if real[0] != "return":
+                    mism.append((K, meth, "engine returns, CPython raised %s" % real[1], params, vi)); continue
+                if meth == "_solv_outp_volt":
+                    sym = [float(solver.frac(conc(to_z(p.value[0], "real")))), float(bool(solver.frac(conc(to_z(p.value[1]["off"][0])))))]
+                elif meth == "_solv_pwr_loss":
+                    sym = [float(solver.frac(conc(to_z(x, "real")))) for x in p.value]
+                else:
+                    sym = [float(solver.frac(conc(to_z(p.value, "real"))))]
+                if not all(math.isclose(x, y, rel_tol=1e-9, abs_tol=1e-12) for x, y in zip(sym, real[1])):
+                    mism.append((K, meth, "engine %r != CPython %r" % (sym, real[1]), params, vi, val[a.io]))
+    return nf, ni, mism
